@@ -177,9 +177,12 @@ template <class T, class S0, class S1, class S2> struct MU : UniverseBase {
             for (int i = 0; i < SZ; ++i) ob[i] = X.data()[i];
             Map other(ob); Ten otw(X);
             Outcome ot2 = window([&] { tw = otw; }, false); (void)ot2;
-            Outcome o2 = window([&] { h = other; }, failalloc);
-            snprintf(cx.info->desc, sizeof cx.info->desc, "h%d<rank %d> = another map of the same type", hi, R);
-            cx.info->sig = mix2(0x3c, (uint64_t)hi); cx.info->nontrivial = true;
+            // the right-hand side is an lvalue, or an rvalue (a temporary map, as returned by reshape/flatten; or std::move of a named one):
+            // the value category of the source must not decide between copying the values and re-binding the handle
+            const uint32_t cat = st.a[A_VAL] % 3;
+            Outcome o2 = window([&] { if (cat == 0) h = other; else if (cat == 1) h = Map(ob); else h = std::move(other); }, failalloc);
+            snprintf(cx.info->desc, sizeof cx.info->desc, "h%d<rank %d> = another map of the same type (%s)", hi, R, cat == 0 ? "lvalue" : cat == 1 ? "temporary" : "std::move");
+            cx.info->sig = mix2(0x3c, (uint64_t)hi * 4 + cat); cx.info->nontrivial = true;
             if (o2.kind == 1) { char d2[200]; o2.describe(d2, sizeof d2); cx.v->set(cx.si, "fault/map_copy", cx.opname, "%s: %s raised %s", cx.opname, cx.info->desc, d2); return; }
             if (h.data() != buf) { cx.v->set(cx.si, "rebind/map_copy", cx.opname, "%s: %s: the handle was re-bound to the other buffer instead of receiving its values (an owning tensor would have been assigned the values)", cx.opname, cx.info->desc);
                 new (&h) Map(buf); return; }
